@@ -83,6 +83,11 @@ def _worker(crate, R, b):
         tgt = crate.by_key.get(util.callee_key(t))
         if tgt is not None and not tgt.is_closure and tgt.vis != "pub" and not util.self_recursive(tgt) and any(util.callee_key(t2) == b.key for _bb2, t2 in tgt.calls()):
             return b
+    # recursion through a closure handed to a private helper (`node.replace_right(|mid| Self::merge(mid, r))`):
+    # with the helper inlined and the closure applied the function calls itself directly
+    for cb in crate.closures_of(b):
+        if any(util.callee_key(t2) == b.key for _bb2, t2 in cb.calls()):
+            return b
     cands = []
     for bb, t in b.calls():
         tgt = crate.by_key.get(util.callee_key(t))
